@@ -469,6 +469,94 @@ var specC18Total = Register(&Spec[ParserInput]{
 	Check: checkParserInput,
 })
 
+// ------------------------------------------------------------------ the local time zone is not input
+
+// ZoneCase: a changelog parsed with the process's local time zone set to different zones.
+type ZoneCase struct {
+	EP    string `json:"ep"`
+	Input []byte `json:"input"`
+}
+
+var specC18Zone = Register(&Spec[ZoneCase]{
+	Prop: "C18", Name: "localzone",
+	Rule: "changelog.Parse / ParseOne on inputs of the C18/total generator (valid, mutated, soups ...): the input is parsed as the process stands, then once for every zone offset found in the result (and for +00:00, +01:00 and -05:30) with time.Local set to a fixed zone of that offset - time.Parse hands out Local instead of a zone made from the written offset when the two agree. Oracle: every parse gives a deeply equal result, the same error-ness and text, and the same When.String() for every entry: the value is a function of the bytes, not of the zone the process runs in. Non-trivial: the first parse returned at least one entry; distinct by (entry point, bytes).",
+	Check: func(c ZoneCase, r *Recorder) error {
+		f := entryPoints[c.EP]
+		if f == nil || !strings.HasPrefix(c.EP, "changelog.") {
+			return errf("HARNESS: entry point %q", c.EP)
+		}
+		whens := func(v interface{}) []time.Time {
+			switch x := v.(type) {
+			case changelog.ChangelogEntries:
+				out := []time.Time{}
+				for _, e := range x {
+					out = append(out, e.When)
+				}
+				return out
+			case []changelog.ChangelogEntry:
+				out := []time.Time{}
+				for _, e := range x {
+					out = append(out, e.When)
+				}
+				return out
+			case *changelog.ChangelogEntry:
+				if x != nil {
+					return []time.Time{x.When}
+				}
+			}
+			return nil
+		}
+		base, err := callGuarded(c.EP, c.Input)
+		if err != nil {
+			return errf("%v (input %q)", err, clip(c.Input))
+		}
+		ws := whens(base.Val)
+		r.Case(c.EP+"|"+string(c.Input), len(ws) > 0)
+		offs := []int{0, 3600, -19800}
+		for _, w := range ws {
+			_, off := w.Zone()
+			offs = append(offs, off)
+		}
+		saved := time.Local
+		defer func() { time.Local = saved }()
+		for _, off := range offs {
+			time.Local = time.FixedZone("XST", off)
+			there, err := callGuarded(c.EP, c.Input)
+			time.Local = saved
+			if err != nil {
+				return errf("%v (input %q)", err, clip(c.Input))
+			}
+			if there.Err != base.Err || there.ErrText != base.ErrText {
+				return errf("%s on %q: err=%v %q as the process stands, err=%v %q with the local time zone at UTC%+ds", c.EP, clip(c.Input), base.Err, base.ErrText, there.Err, there.ErrText, off)
+			}
+			wt := whens(there.Val)
+			if len(wt) != len(ws) {
+				return errf("%s on %q: %d entries as the process stands, %d with the local time zone at UTC%+ds", c.EP, clip(c.Input), len(ws), len(wt), off)
+			}
+			for i := range ws {
+				if a, b := ws[i].String(), wt[i].String(); a != b {
+					return errf("%s on %q: entry %d has When %q as the process stands and %q with the local time zone at UTC%+ds: the value depends on more than the input", c.EP, clip(c.Input), i, a, b, off)
+				}
+			}
+			if !reflect.DeepEqual(base.Val, there.Val) {
+				return errf("%s on %q: the result with the local time zone at UTC%+ds is not deeply equal to the result as the process stands", c.EP, clip(c.Input), off)
+			}
+		}
+		return nil
+	},
+})
+
+func TestC18_LocalZone(t *testing.T) {
+	specC18Zone.Run(t, func(t *rapid.T) ZoneCase {
+		ep := rapid.SampledFrom([]string{"changelog.Parse", "changelog.Parse", "changelog.ParseOne"}).Draw(t, "ep")
+		in := genParserInput(t, ep)
+		if len(in.Input) > 4096 {
+			in.Input = in.Input[:4096]
+		}
+		return ZoneCase{EP: ep, Input: in.Input}
+	}, 4000, 30000)
+}
+
 func TestC18_Total(t *testing.T) {
 	specC18Total.Run(t, func(t *rapid.T) ParserInput {
 		ep := rapid.SampledFrom(entryPointNames).Draw(t, "ep")
